@@ -603,6 +603,10 @@ impl Deadline {
     ///
     /// If the verbose option is on, it also prints a timeout message once.
     pub fn passed(&self) -> bool {
+        #[cfg(feature = "verif")]
+        if let Some(passed) = crate::verif::tap().and_then(|t| t.deadline()) {
+            return passed;
+        }
         if let Some(imp) = &self.imp {
             let elapsed = imp.start.elapsed();
             if elapsed > imp.timeout {
